@@ -71,6 +71,7 @@ pub fn run<const V: u32>() {
         allow_big: !flag("nobig"),
         allow_bind: flag("bind"),
     };
+    crate::TRY_FIRST.store(flag("tryfirst"), Ordering::Relaxed);
     let mode = arg_or("mode", "random");
     match mode.as_str() {
         "random" => {
